@@ -24,7 +24,8 @@ Proof.
   - destruct (inb lo hi a && inb lo hi b && inb lo hi c) eqn:E.
     + apply andb_true_iff in E as [E Ec]. apply andb_true_iff in E as [Ea Eb].
       apply inb_iff in Ea, Eb, Ec. apply hull_quad; assumption.
-    + unfold qsplit_l, qsplit_r in H. apply andb_true_iff in H as [H1 H2].
+    + destruct (negb (inb lo hi a && inb lo hi c)); [discriminate|].
+      unfold qsplit_l, qsplit_r in H. apply andb_true_iff in H as [H1 H2].
       destruct (Qlt_le_dec t (1#2)) as [L|R].
       * pose proof (IH _ _ _ _ _ H1 (2 * t)) as P.
         assert (T : 0 <= 2 * t <= 1) by lra. specialize (P T).
@@ -54,7 +55,8 @@ Proof.
   - destruct (inb lo hi a && inb lo hi b && inb lo hi c && inb lo hi d) eqn:E.
     + apply andb_true_iff in E as [E Ed]. apply andb_true_iff in E as [E Ec]. apply andb_true_iff in E as [Ea Eb].
       apply inb_iff in Ea, Eb, Ec, Ed. apply hull_cube; assumption.
-    + unfold csplit_l, csplit_r in H. apply andb_true_iff in H as [H1 H2].
+    + destruct (negb (inb lo hi a && inb lo hi d)); [discriminate|].
+      unfold csplit_l, csplit_r in H. apply andb_true_iff in H as [H1 H2].
       destruct (Qlt_le_dec t (1#2)) as [L|R].
       * pose proof (IH _ _ _ _ _ _ H1 (2 * t)) as P.
         assert (T : 0 <= 2 * t <= 1) by lra. specialize (P T).
